@@ -78,6 +78,7 @@ func c01GetAlphabet() *c01Alphabet {
 			"|http://ads4.example.org/",
 			"ads5.example.org^",        // un-anchored: matched against the bare hostname for hostname requests
 			"||EXAMPLE.org^$important", // upper case in the pattern, lower-cased shortcut
+			"! a comment line",         // a list may consist of nothing but such lines
 		)
 		long := "http://example.org/ads?" + strings.Repeat("x", 4070) + "/banner-ads-"
 		urls := []string{"http://example.org/", "https://sub.example.org/ads?x=1", "http://x.com/banner", "http://EXAMPLE.ORG/ADS", "http://example.org/?u=example.org",
@@ -212,7 +213,7 @@ func (m *c01Model) run(hist []int) statespace.Outcome {
 	for i := range en {
 		en[i] = true
 	}
-	en[len(a.rules)] = len(lists) < len(c01ListIDs) && len(lists[len(lists)-1]) > 0
+	en[len(a.rules)] = len(lists) < len(c01ListIDs) // also right after another "new list": empty lists are lists too
 	return statespace.Outcome{Key: fmt.Sprintf("%d|%s", len(lists), key), Enabled: en, Observation: obs.String()}
 }
 
